@@ -306,6 +306,14 @@ def base_scenario(rng: random.Random, prop: str, **kn) -> dict:
         if rng.random() < 0.5:
             k = rng.randint(1, 3)
             scn["plan"]["steps"][0]["variables"] = [points[rng.randrange(npoints)] for _ in range(k)]
+    # index maps that say the same for every function are sometimes written as a size-one array or a scalar
+    # (the configuration's broadcasting convention)
+    for sect in ("objectives", "nonlinear_constraints"):
+        for fld in ("function_estimators", "realization_filters"):
+            m = (cfg.get(sect) or {}).get(fld)
+            if isinstance(m, list) and len(m) > 1 and len(set(m)) == 1 and rng.random() < kn.get("short_map_p", 0.5):
+                cfg[sect][fld] = rng.choice([[m[0]], m[0]])
+                scn["short_index_map"] = True
     if rng.random() < kn.get("validated_object_p", 0.15):
         # the user validates the configuration and hands the EnOptConfig object to the steps (which validate again)
         scn["validated_config_object"] = True
